@@ -93,20 +93,23 @@ PROP = {'drive': ['Total'] + ['Total' + g for g in _GROUPS],
  'assumptions': ['in-memory readers (bytes.Reader): Seek/ReadAt fail only at the end of the input',
                  'sizes below 2^47 elements for make (inputs up to several MB give counts below 2^32)']}
 
-LEVEL = {'text': 'Proof for the tier-A decoders, search for the rest: checked-index Lean models (every Go index, slice, make, '
+LEVEL = {'text': 'Proof for tier A and most of tier B, search for the rest: checked-index Lean models (every Go index, slice, make, '
          'parser read, nil-func call and explicit panic is an operation that can yield a panic) of kern, maxp, header, gdef, the cmap '
-         'directory and formats 0/4/6/12, loca/glyf/simple and composite glyphs, hmtx, head, OS/2, post, name, coverage, classdef and '
-         'the CFF INDEX reader are proved never to panic on any byte string, with explicit step and allocation bounds; where the '
-         'linear clause is false (gdef, name, classdef format 2, cmap directory) the true bound is proved together with a witness '
-         'family. Lazy decoders and accessors (SimpleGlyph.Decode on every value, Components, Table.Get, Lookup, CodeRange) are '
-         'proved panic-free on whatever the decoders return. Each checked model is proved equal, after erasing sites and costs, to '
-         'the value-level model of the property that owns the format (C03, C09, C11, C12, C13, C14, C08). The models are tied to the '
-         'code by outcome-and-value correspondence on malformed inputs and by a regenerated inventory of all index/slice/make/'
-         'assertion/panic sites with their guards (a V line per function). Every decoder named by the property, with the accessors on '
-         "its result, is additionally run on valid tables from the repository's encoders, its fuzz corpora, truncations, mutations "
-         'and constructed families of many individually legal maximal records, with panics, time-outs and allocation out of '
-         'proportion reported as violations.',
+         'directory and formats 0/4/6/12, loca/glyf/simple and composite glyphs, hmtx, head, OS/2, post, name, coverage, classdef, the '
+         'CFF INDEX/DICT/charset/encoding/FDSelect readers, the GSUB/GPOS header, script, feature and lookup lists, GSUB 1-4/8, '
+         '(chained) context 1-3, GPOS 1-3, anchor and mark array are proved never to panic on any byte string (167 theorems), with '
+         'explicit step and allocation bounds; where the linear clause is false (offset aliasing: gdef, name, script list, lookup '
+         'list, GSUB 2/3/8, context, GPOS 2.1; quadratic cmap directory) the true bound is proved together with a witness. Lazy '
+         'decoders and accessors (SimpleGlyph.Decode on every value, Components, Table.Get, Lookup, CodeRange, the FDSelect closure) '
+         'are proved panic-free on whatever the decoders return. Each checked model is proved equal, after erasing sites and costs, '
+         'to the value-level model of the property that owns the format (C03, C09, C11, C12, C13, C14, C08) where that exists. The '
+         'models are tied to the code by outcome-and-value correspondence on malformed inputs and by a regenerated inventory of all '
+         'index/slice/make/assertion/panic sites with their guards (one V line per modelled function, 62 functions). Every decoder '
+         "named by the property, with the accessors on its result, is additionally run on valid tables from the repository's "
+         'encoders, its fuzz corpora, truncations, mutations, the structured inputs of all model generators and constructed families '
+         '(many individually legal maximal records, headers straddling the end of the table, aliased offsets), with panics, '
+         'time-outs and allocation out of proportion reported as violations with a concrete input.',
  'note': 'Trusted: Lean kernel + 3 standard axioms; hand-written models mirror the code as checked by sampled correspondence and the '
-         'site inventory; sfnt.Read, the CFF DICT/charstring layer and the GSUB/GPOS readers are covered by differential fuzzing only.',
+         'site inventory; sfnt.Read, the CFF Top DICT/charstring layer and GPOS 4-6 are covered by differential fuzzing only.',
  'technique': 'Lean 4 proofs about checked-index decoder models + bridging lemmas to value-level models + AST site/guard inventory + '
               'differential fuzzing with allocation/time budgets'}
